@@ -303,11 +303,17 @@ class Interp(Engine):
         return self.binop(node.op, a, b)
 
     def binop(self, op, a, b):
+        if isinstance(a, str) and isinstance(op, ast.Mod) and isinstance(b, tuple) and any(isinstance(x, Sym) for x in b):
+            t = self.format_term(a, b)
+            return SStr(t if t is not None else self.fresh('fmt', StrSort))
         if not isinstance(a, Sym) and not isinstance(b, Sym):
             return self.concrete_binop(op, a, b)
         if isinstance(a, (SBytes, bytes)) or isinstance(b, (SBytes, bytes)):
             return self.bytes_binop(op, a, b)
         if isinstance(a, str) and isinstance(op, ast.Mod):
+            t = self.format_term(a, b)
+            if t is not None:
+                return SStr(t)
             return SStr(self.fresh('fmt', StrSort))        # '%'-formatting of symbolic values (diagnostic texts): opaque
         if isinstance(a, (SStr, str)) and isinstance(b, (SStr, str)) and isinstance(op, ast.Add):
             cat = z3.Function('strcat', StrSort, StrSort, StrSort)
@@ -521,6 +527,31 @@ class Interp(Engine):
         if not isinstance(a, Sym) and not isinstance(b, Sym):
             return a == b
         raise OutOfSubset('equality of %r and %r' % (a, b))
+
+    def format_term(self, fmt, b):
+        """'<literal>' % args as an uninterpreted function of the literal over the arguments (strings as PyStr, ints as
+        Int; anything else through the contract's `str` hook): formatting is a function of its operands, which is all
+        the text contracts (C18) need.  None when an operand has no string rendering in the model."""
+        args = list(b) if isinstance(b, tuple) else [b]
+        terms = []
+        for x in args:
+            if isinstance(x, SStr):
+                terms.append(x.t)
+            elif isinstance(x, str):
+                terms.append(self.as_str(x))
+            elif isinstance(x, SInt) or (isinstance(x, int) and not isinstance(x, bool)):
+                terms.append(self.as_int(x))
+            else:
+                hook = self.hooks.get('str') if isinstance(x, Sym) else None
+                r = hook(self, x) if hook else NotImplemented
+                if r is NotImplemented or not isinstance(r, (SStr, str)):
+                    return None
+                terms.append(self.as_str(r))
+        import hashlib
+        name = 'fmt!%s!%s' % (hashlib.sha1(fmt.encode('utf-8')).hexdigest()[:10],
+                              ''.join('i' if t.sort() == z3.IntSort() else 's' for t in terms))
+        f = z3.Function(name, *([t.sort() for t in terms] + [StrSort]))
+        return f(*terms)
 
     def as_str(self, v):
         if isinstance(v, SStr):
